@@ -40,15 +40,15 @@ type c13Ext struct {
 }
 
 type c13BuyInfo struct {
-	Msg       *subscriptiontypes.MsgBuy
-	Kind      string // new | extend | upgrade | advance | advance_replace
-	Plan      planstypes.Plan
-	PrevSub   *subscriptiontypes.Subscription // most up-to-date entry before the tx (incl. pending upgrade)
+	Msg                         *subscriptiontypes.MsgBuy
+	Kind                        string // new | extend | upgrade | advance | advance_replace
+	Plan                        planstypes.Plan
+	PrevSub                     *subscriptiontypes.Subscription // most up-to-date entry before the tx (incl. pending upgrade)
 	CreatorBefore, CreatorAfter math.Int
-	Err       error
-	Height    uint64
-	NextEpoch uint64
-	Time      time.Time
+	Err                         error
+	Height                      uint64
+	NextEpoch                   uint64
+	Time                        time.Time
 }
 
 var c13Cur *c13Ext
@@ -151,7 +151,7 @@ func (s *Sim) c13GenPlan(idx string) planstypes.Plan {
 	return planstypes.Plan{
 		Index: idx, Description: "sim plan", Type: "rpc", Block: s.Height(), Price: s.Coin(price),
 		AllowOveruse: over, OveruseRate: rate, AnnualDiscountPercentage: uint64(r.Draw("ops", 40)),
-		PlanPolicy: planstypes.Policy{TotalCuLimit: total, EpochCuLimit: epochLimit, MaxProvidersToPair: uint64(2 + r.Draw("ops", 4)), GeolocationProfile: 1},
+		PlanPolicy:    planstypes.Policy{TotalCuLimit: total, EpochCuLimit: epochLimit, MaxProvidersToPair: uint64(2 + r.Draw("ops", 4)), GeolocationProfile: 1},
 		ProjectsLimit: uint64(1 + r.Draw("ops", 5)),
 	}
 }
